@@ -68,7 +68,7 @@ def main():
     evs = lines(t)
     ok &= expect("pae: untouched trace accepted", t, "Trace_Pae", "Trace_Pae.cfg", False, reset_ev="pack")
     bad = [json.loads(json.dumps(e)) for e in evs]
-    bad[0]["out"][8] = "9"
+    bad[0]["out"][7] = "9" if bad[0]["out"][7] != "9" else "8"
     write(t, bad)
     ok &= expect("pae: corrupted length field rejected", t, "Trace_Pae", "Trace_Pae.cfg", True, reset_ev="pack")
     os.remove(t)
